@@ -616,8 +616,15 @@ where
                         )));
                     }
                     Some(content) => {
-                        // TODO check length
-                        io::copy(&mut content.take(*length), dest)?;
+                        let copied = io::copy(&mut content.take(*length), dest)?;
+                        if copied != *length {
+                            // The source ended before the announced length
+                            return Err(io::Error::new(
+                                io::ErrorKind::UnexpectedEof,
+                                "Not enough data in the source of a file content",
+                            )
+                            .into());
+                        }
                     }
                 }
                 Ok(())
